@@ -1,4 +1,5 @@
 SPECIFICATION EmitSpec
 CONSTANTS
   Tier = "quick"
+  EnvDefects = {}
 CHECK_DEADLOCK FALSE
